@@ -157,6 +157,20 @@ class ClassInfo:
                 return c.methods[name]
         return None
 
+    def assigned_fields(self):
+        """names assigned as `self.<name> = ...` anywhere in the class or its bases (the instance fields the real code creates)"""
+        if not hasattr(self, "_assigned_fields"):
+            names = set()
+            for c in self.mro():
+                for m in c.methods.values():
+                    for n in ast.walk(m.node):
+                        tgt = n.targets if isinstance(n, ast.Assign) else [n.target] if isinstance(n, (ast.AnnAssign, ast.AugAssign)) else []
+                        for t in tgt:
+                            if isinstance(t, ast.Attribute) and isinstance(t.value, ast.Name) and t.value.id == "self":
+                                names.add(t.attr)
+            self._assigned_fields = names
+        return self._assigned_fields
+
     def find_class_attr(self, name):
         for c in self.mro():
             if name in c.class_attrs:
